@@ -60,60 +60,416 @@ FIX_ONLY = {("validate_interfaces", 'Type "%s" can only implement interface type
 NOT_MODELLED = {"notDirective", "enumNotValue"}
 
 
-def _const_str(node):
-    """String value of a (possibly implicitly concatenated / `%`-formatted) message expression."""
-    if isinstance(node, ast.Constant) and isinstance(node.value, str):
-        return node.value
-    if isinstance(node, ast.BinOp) and isinstance(node.op, ast.Mod):
-        return _const_str(node.left)
-    if isinstance(node, ast.BinOp) and isinstance(node.op, ast.Add):
-        l, r = _const_str(node.left), _const_str(node.right)
-        return None if l is None or r is None else l + r
-    return None
+class _Env:
+    """Simple data flow inside one method (+ module level and class level constants): which string
+    constants can a name / attribute / subscript stand for."""
+
+    def __init__(self, module, cls, fn):
+        self.scopes = []
+        for body in (fn.body, cls.body, module.body):
+            names, loops = {}, []
+            for st in (ast.walk(ast.Module(body=body, type_ignores=[])) if body is fn.body else body):
+                if isinstance(st, ast.Assign) and len(st.targets) == 1 and isinstance(st.targets[0], ast.Name):
+                    names.setdefault(st.targets[0].id, []).append(st.value)
+                elif isinstance(st, ast.AnnAssign) and isinstance(st.target, ast.Name) and st.value is not None:
+                    names.setdefault(st.target.id, []).append(st.value)
+                elif isinstance(st, (ast.For, ast.comprehension)):
+                    loops.append((st.target, st.iter))
+            self.scopes.append((names, loops))
+
+    def values_of(self, name):
+        """AST nodes a name may be bound to (assignments and `for` targets), innermost scope first."""
+        for names, loops in self.scopes:
+            out = list(names.get(name, []))
+            for target, it in loops:
+                idx = None
+                if isinstance(target, ast.Name) and target.id == name:
+                    idx = ()
+                elif isinstance(target, (ast.Tuple, ast.List)):
+                    for i, t in enumerate(target.elts):
+                        if isinstance(t, ast.Name) and t.id == name:
+                            idx = (i,)
+                if idx is None:
+                    continue
+                for seq in self.sequences(it):
+                    for e in seq:
+                        if idx == ():
+                            out.append(e)
+                        elif isinstance(e, (ast.Tuple, ast.List)) and idx[0] < len(e.elts):
+                            out.append(e.elts[idx[0]])
+                        else:
+                            out.append(None)
+            if out:
+                return out
+        return []
+
+    def sequences(self, node, depth=0):
+        """Literal sequences an iterable expression may be."""
+        if depth > 4:
+            return []
+        if isinstance(node, (ast.Tuple, ast.List, ast.Set)):
+            return [node.elts]
+        if isinstance(node, ast.Dict):
+            return [node.values]
+        if isinstance(node, ast.Name):
+            return [s for v in self.values_of(node.id) if v is not None for s in self.sequences(v, depth + 1)]
+        if isinstance(node, ast.Attribute) and isinstance(node.value, ast.Name) and node.value.id in ("self", "cls"):
+            return [s for v in self.values_of(node.attr) if v is not None for s in self.sequences(v, depth + 1)]
+        if isinstance(node, ast.Call) and isinstance(node.func, ast.Attribute) and node.func.attr in ("items", "values") and not node.args:
+            base = node.func.value
+            dicts = []
+            if isinstance(base, ast.Dict):
+                dicts = [base]
+            elif isinstance(base, ast.Name):
+                dicts = [v for v in self.values_of(base.id) if isinstance(v, ast.Dict)]
+            if node.func.attr == "values":
+                return [d.values for d in dicts]
+            return [[ast.Tuple(elts=[k, v], ctx=ast.Load()) for k, v in zip(d.keys, d.values)] for d in dicts]
+        if isinstance(node, ast.Call) and isinstance(node.func, ast.Name) and node.func.id in ("enumerate", "zip", "list", "tuple", "sorted", "reversed"):
+            if node.func.id == "zip":
+                seqs = [self.sequences(a, depth + 1) for a in node.args]
+                if all(len(x) == 1 for x in seqs):
+                    return [[ast.Tuple(elts=list(es), ctx=ast.Load()) for es in zip(*[x[0] for x in seqs])]]
+                return []
+            inner = self.sequences(node.args[0], depth + 1) if node.args else []
+            if node.func.id == "enumerate":
+                return [[ast.Tuple(elts=[ast.Constant(i), e], ctx=ast.Load()) for i, e in enumerate(seq)] for seq in inner]
+            return inner
+        return []
+
+    def strings(self, node, depth=0):
+        """All string constants `node` may evaluate to as a MESSAGE TEMPLATE; None = not recognised."""
+        if node is None or depth > 6:
+            return None
+        if isinstance(node, ast.Constant):
+            return [node.value] if isinstance(node.value, str) else None
+        if isinstance(node, ast.BinOp) and isinstance(node.op, ast.Mod):
+            return self.strings(node.left, depth + 1)
+        if isinstance(node, ast.BinOp) and isinstance(node.op, ast.Add):
+            l, r = self.strings(node.left, depth + 1), self.strings(node.right, depth + 1)
+            return None if l is None or r is None else [x + y for x in l for y in r]
+        if isinstance(node, ast.Call) and isinstance(node.func, ast.Attribute) and node.func.attr == "format":
+            return self.strings(node.func.value, depth + 1)
+        if isinstance(node, ast.IfExp):
+            l, r = self.strings(node.body, depth + 1), self.strings(node.orelse, depth + 1)
+            return None if l is None or r is None else l + r
+        if isinstance(node, ast.Name) or (isinstance(node, ast.Attribute) and isinstance(node.value, ast.Name)
+                                          and node.value.id in ("self", "cls")):
+            vals = self.values_of(node.id if isinstance(node, ast.Name) else node.attr)
+            if not vals:
+                return None
+            out = []
+            for v in vals:
+                r = self.strings(v, depth + 1)
+                if r is None:
+                    return None
+                out += r
+            return out
+        if isinstance(node, ast.Subscript):
+            seqs = self.sequences(node.value)
+            key = node.slice
+            out = []
+            for base in ([node.value] if isinstance(node.value, ast.Dict) else
+                         [v for v in (self.values_of(node.value.id) if isinstance(node.value, ast.Name) else []) if v is not None]):
+                if isinstance(base, ast.Dict) and isinstance(key, ast.Constant):
+                    for k, v in zip(base.keys, base.values):
+                        if isinstance(k, ast.Constant) and k.value == key.value:
+                            r = self.strings(v, depth + 1)
+                            if r is None:
+                                return None
+                            out += r
+                elif isinstance(base, (ast.Tuple, ast.List)) and isinstance(key, ast.Constant) and isinstance(key.value, int):
+                    r = self.strings(base.elts[key.value], depth + 1) if -len(base.elts) <= key.value < len(base.elts) else None
+                    if r is None:
+                        return None
+                    out += r
+                elif isinstance(base, (ast.Dict, ast.Tuple, ast.List)):
+                    # computed key / index: any element
+                    for e in (base.values if isinstance(base, ast.Dict) else base.elts):
+                        r = self.strings(e, depth + 1)
+                        if r is None:
+                            return None
+                        out += r
+            return out or None
+        return None
+
+
+def norm_template(fmt):
+    """`str.format` holes -> `%s`, so that both formatting styles name the same template."""
+    return re.sub(r"\{[^{}]*\}", "%s", fmt)
 
 
 def call_sites(src=None):
-    """[(method, format string)] of every `self.add_error(...)` in `SchemaValidator`, in source order."""
+    """([(method, template)] of every `self.add_error(...)` in `SchemaValidator` in source order,
+        [(method, line)] of the calls whose message expression is not recognised)."""
     tree = ast.parse(src if src is not None else VALIDATION.read_text())
     cls = [n for n in tree.body if isinstance(n, ast.ClassDef) and n.name == "SchemaValidator"]
     if not cls:
         raise py2lean.Untranslatable("class SchemaValidator not found")
-    out = []
+    out, unknown = [], []
     for m in cls[0].body:
-        if not isinstance(m, ast.FunctionDef):
+        if not isinstance(m, ast.FunctionDef) or m.name == "add_error":
             continue
+        env = _Env(tree, cls[0], m)
         for c in ast.walk(m):
             if (isinstance(c, ast.Call) and isinstance(c.func, ast.Attribute) and c.func.attr == "add_error"
                     and isinstance(c.func.value, ast.Name) and c.func.value.id == "self"):
-                if m.name == "add_error":
+                fmts = env.strings(c.args[0]) if c.args else None
+                if not fmts:
+                    unknown.append((m.name, c.lineno))
                     continue
-                fmt = _const_str(c.args[0]) if c.args else None
-                if fmt is None:
-                    raise py2lean.Untranslatable("add_error in %s with a non-literal message" % m.name)
-                out.append((m.name, fmt, c.lineno))
+                seen = []
+                for f in fmts:
+                    if f not in seen:
+                        seen.append(f)
+                        out.append((m.name, norm_template(f), c.lineno, f))
     out.sort(key=lambda t: t[2])
-    return [(m, f) for m, f, _ in out]
+    return [(m, f, raw) for m, f, _, raw in out], unknown
 
 
-def rule_table():
-    """{rule id: [format strings]} of the working tree; raises when the call sites changed shape."""
-    sites = call_sites()
-    unknown = [s for s in sites if s not in RULES]
+_STATIC_WHY = [None]
+
+
+def static_rule_table():
+    """{rule id: [templates]} from the source text, or None (reason in _STATIC_WHY) when the call sites are
+    not all recognised / do not carry exactly the known templates."""
+    try:
+        sites, unknown = call_sites()
+    except Exception as e:  # noqa
+        _STATIC_WHY[0] = "%s: %s" % (type(e).__name__, e)
+        return None
     if unknown:
-        raise py2lean.Untranslatable("unknown add_error call sites: %r" % unknown)
-    missing = [s for s in RULES if s not in sites and s not in FIX_ONLY]
-    if missing:
-        raise py2lean.Untranslatable("add_error call sites disappeared: %r" % missing)
+        _STATIC_WHY[0] = "add_error with an unrecognised message expression in %s" % ", ".join("%s:%d" % u for u in unknown)
+        return None
+    known = {(m, norm_template(f)): r for (m, f), r in RULES.items()}
+    by_template = {}
+    for (m, f), r in known.items():
+        by_template.setdefault(f, set()).add(r)
     table = {}
-    for s in sites:
-        table.setdefault(RULES[s], [])
-        if s[1] not in table[RULES[s]]:
-            table[RULES[s]].append(s[1])
+    for m, f, raw in sites:
+        if (m, f) in known:
+            rule = known[(m, f)]
+        elif len(by_template.get(f, ())) == 1:
+            rule = next(iter(by_template[f]))        # the same template, emitted from another (renamed / helper) method
+        else:
+            _STATIC_WHY[0] = "unknown message template %r in %s" % (raw, m)
+            return None
+        table.setdefault(rule, [])
+        if raw not in table[rule]:
+            table[rule].append(raw)
+    missing = sorted(set(RULES.values()) - set(table) - NOT_MODELLED)
+    if missing:
+        _STATIC_WHY[0] = "no call site found for rule(s) %s" % ", ".join(missing)
+        return None
+    _STATIC_WHY[0] = None
     return table
 
 
+# ---- dynamic attribution (fallback) -------------------------------------------------------------
+
+def _single_violation(rule, k):
+    """A description (gen/schema.py format) in which exactly ONE rule instance is violated: `rule`.
+    `k` in (0, 1) varies every name and type expression that ends up in the message."""
+    sfx = "ab"[k]
+    t1 = [("named", "Int"), ("list", ("nonNull", ("named", "Float")))][k]
+    t2 = [("named", "String"), ("nonNull", ("named", "Boolean"))][k]
+    E, In, I, O, U = "En" + sfx, "In" + sfx, "If" + sfx, "Ob" + sfx, "Un" + sfx
+    fn, own, x = "f" + sfx, "own" + sfx, "x" + sfx
+
+    def F(name, t, args=None, **kw):
+        d = {"name": name, "type": t, "args": args or [], "deprecated": None, "desc": None}
+        d.update(kw)
+        return d
+
+    def A(name, t):
+        return {"name": name, "type": t, "default": None, "desc": None}
+    N = lambda n: ("named", n)  # noqa
+    wrap = (lambda t: t) if k == 0 else (lambda t: ("list", t))
+    d = {"directives": [], "query": "Query", "mutation": None, "subscription": None, "types": [
+        {"kind": "enum", "name": E, "desc": None, "values": [{"name": "V", "deprecated": None, "desc": None}]},
+        {"kind": "input", "name": In, "desc": None, "fields": [A("i", N("Int"))]},
+        {"kind": "interface", "name": I, "desc": None, "fields": [F(fn, t1, [A(x, t1)])]},
+        {"kind": "object", "name": O, "desc": None, "interfaces": [I], "fields": [F(fn, t1, [A(x, t1)]), F(own, N("Int"), [A("p", N("Int"))])]},
+        {"kind": "union", "name": U, "desc": None, "members": [O]},
+        {"kind": "object", "name": "Query", "desc": None, "interfaces": [],
+         "fields": [F("o", N(O)), F("u", N(U)), F("e", N(E), [A("i", N(In))])]},
+    ]}
+    T = {t["name"]: t for t in d["types"]}
+    q = T["Query"]
+
+    def fresh(t):
+        d["types"].append(t)
+        if t["kind"] == "input":
+            q["fields"].append(F("r" + sfx, N("Int"), [A("i", N(t["name"]))]))
+        else:
+            q["fields"].append(F("r" + sfx, N(t["name"])))
+    of, oown = T[O]["fields"]
+    if rule == "invalidName":
+        T[O]["fields"].append(F("__" + sfx, N("Int")))
+    elif rule == "invalidTypeName":
+        fresh({"kind": "object", "name": "__T" + sfx, "desc": None, "interfaces": [], "fields": [F("a", N("Int"))]})
+    elif rule == "noQuery":
+        d["query"] = None
+    elif rule == "queryNotObject":
+        d["query"] = I
+    elif rule == "mutationNotObject":
+        d["mutation"] = E
+    elif rule == "subscriptionNotObject":
+        d["subscription"] = U
+    elif rule == "dirDupArg":
+        d["directives"].append({"name": "d" + sfx, "locations": ["FIELD"], "desc": None, "args": [A(x, N("Int")), A("y", N("Int")), A(x, N("Int"))]})
+    elif rule == "dirArgNotInput":
+        d["directives"].append({"name": "d" + sfx, "locations": ["FIELD"], "desc": None, "args": [A(x, wrap(N(O)))]})
+    elif rule == "noFields":
+        fresh({"kind": "object", "name": "Em" + sfx, "desc": None, "interfaces": [], "fields": []})
+    elif rule == "dupField":
+        T[O]["fields"].append(F(own, N("Int"), [A("p", N("Int"))]))
+    elif rule == "fieldNotOutput":
+        T[O]["fields"].append(F("g" + sfx, wrap(N(In))))
+    elif rule == "dupArg":
+        oown["args"].append(A("p", N("Int")))
+    elif rule == "argNotInput":
+        oown["args"].append(A(x, wrap(N(O))))
+    elif rule == "resMissingParam":
+        oown["resolver"] = "root, ctx, info"
+    elif rule == "resPosOnly":
+        oown["resolver"] = "root, ctx, info, p=None, /"
+    elif rule == "resNeedsDefault":
+        oown["resolver"] = "root, ctx, info, p"
+    elif rule == "resPositional":
+        oown["args"] = []
+        oown["resolver"] = ["root, ctx", "**kw"][k]
+    elif rule == "resExtraRequired":
+        oown["resolver"] = "root, ctx, info, p=None, zz%s=None, *, kw%s" % (sfx, sfx)
+    elif rule == "notInterface":
+        fresh({"kind": "object", "name": "Im" + sfx, "desc": None, "interfaces": [O],
+               "fields": [F(fn, t1, [A(x, t1)]), F(own, N("Int"), [A("p", N("Int"))])]})
+    elif rule == "dupInterface":
+        T[O]["interfaces"] = [I, I]
+    elif rule == "ifaceFieldMissing":
+        T[O]["fields"] = [oown]
+    elif rule == "ifaceFieldType":
+        of["type"] = t2
+    elif rule == "ifaceArgMissing":
+        of["args"] = []
+    elif rule == "ifaceArgType":
+        of["args"] = [A(x, t2)]
+    elif rule == "extraRequiredArg":
+        of["args"].append(A("z" + sfx, [("nonNull", N("Int")), ("nonNull", ("list", N("String")))][k]))
+    elif rule == "unionEmpty":
+        fresh({"kind": "union", "name": "Eu" + sfx, "desc": None, "members": []})
+    elif rule == "unionMemberNotObject":
+        T[U]["members"].append(E)
+    elif rule == "unionDup":
+        T[U]["members"].append(O)
+    elif rule == "enumEmpty":
+        fresh({"kind": "enum", "name": "Ee" + sfx, "desc": None, "values": []})
+    elif rule == "inputFieldNotInput":
+        T[In]["fields"].append(A("o" + sfx, wrap(N(O))))
+    else:
+        return None
+    return d
+
+
+def _segments(msg):
+    return re.split(r'("[^"]*")', msg)
+
+
+def _learn(m1, m2):
+    """(regex, template with %s) from two messages of the same call site whose operands all differ.
+    Quoted segments are operands; literal text must agree; a diverging tail (lists of varying length) is left open."""
+    a, b = _segments(m1), _segments(m2)
+    rx, tpl = "^", ""
+    for i in range(max(len(a), len(b))):
+        if i >= len(a) or i >= len(b):
+            rx += ".*"
+            break
+        x, y = a[i], b[i]
+        if i % 2 == 1:
+            rx += '"(.*)"'
+            tpl += '"%s"'
+        elif x == y:
+            rx += re.escape(x)
+            tpl += x.replace("%", "%%")
+        else:
+            n = 0
+            while n < min(len(x), len(y)) and x[n] == y[n]:
+                n += 1
+            rx += re.escape(x[:n]) + ".*"
+            tpl += x[:n].replace("%", "%%") + "%s"
+            break
+    return rx + "$", tpl
+
+
+_DYNAMIC = {}
+
+
+def dynamic_rule_table():
+    """Learn, for every rule the model can emit, the shape of the message the REAL validator produces when
+    exactly that rule is violated (two instances per rule with different subjects).
+    Returns ({rule: [template]}, [(rule, compiled regex)], notes)."""
+    key = str(REPO)
+    if key in _DYNAMIC:
+        return _DYNAMIC[key]
+    from corr import C13 as harness        # builder of live schemas (lazy: C13 imports this module)
+    from py_gql.schema.validation import validate_schema
+    from py_gql.exc import SchemaValidationError
+    rules = sorted(set(RULES.values()) - NOT_MODELLED)
+    table, rxs, notes = {}, [], []
+    for rule in rules:
+        msgs = []
+        for k in (0, 1):
+            desc = _single_violation(rule, k)
+            try:
+                schema = harness.build_code(desc)
+                try:
+                    validate_schema(schema)
+                    msgs.append([])
+                except SchemaValidationError as e:
+                    msgs.append([str(x) for x in e.errors])
+            except Exception as e:  # noqa
+                msgs.append(None)
+                notes.append("dynamic attribution: instance of %s not usable (%s)" % (rule, type(e).__name__))
+        if None in msgs or not msgs[0] or len(msgs[0]) != len(msgs[1]):
+            notes.append("dynamic attribution: no message learned for rule %s (the single-violation instances give %r)"
+                         % (rule, [None if m is None else len(m) for m in msgs]))
+            continue
+        learned = []
+        for m1, m2 in zip(*msgs):
+            r = _learn(m1, m2)
+            if r not in learned:
+                learned.append(r)
+        for rx, tpl in learned:
+            rxs.append((rule, rx))
+            table.setdefault(rule, []).append(tpl)
+    # one shape = one rule (identical call sites of different rules cannot be told apart: keep the first, note it)
+    seen, uniq = {}, []
+    for rule, rx in rxs:
+        if rx in seen:
+            if seen[rx] != rule:
+                notes.append("dynamic attribution: rules %s and %s produce messages of the same shape" % (seen[rx], rule))
+            continue
+        seen[rx] = rule
+        uniq.append((rule, re.compile(rx, re.S)))
+    _DYNAMIC[key] = (table, uniq, notes)
+    return _DYNAMIC[key]
+
+
+def extraction_mode():
+    return "static" if static_rule_table() is not None else "dynamic"
+
+
+def rule_table():
+    """{rule id: [templates]} of the working tree (static when the call sites are recognised, else learned)."""
+    t = static_rule_table()
+    return t if t is not None else dynamic_rule_table()[0]
+
+
 def fix_applied():
-    return all(s in call_sites() for s in FIX_ONLY) and input_names_checked() and not name_classes()[4]
+    try:
+        return input_names_checked() and not name_classes()[4]
+    except Exception:  # noqa
+        return True
 
 
 def input_names_checked():
@@ -124,10 +480,13 @@ def input_names_checked():
 
 def matchers():
     """[(rule id, compiled regex)] used ONLY to attribute a real message to the call site that raised it."""
+    t = static_rule_table()
+    if t is None:
+        return dynamic_rule_table()[1]
     out = []
-    for rule, fmts in rule_table().items():
+    for rule, fmts in t.items():
         for fmt in fmts:
-            parts = re.split(r"%[sr]", fmt)
+            parts = re.split(r"%[sr]|\{[^{}]*\}", fmt)
             out.append((rule, re.compile("^" + "(.*)".join(re.escape(p) for p in parts) + "$", re.S)))
     return out
 
@@ -246,6 +605,24 @@ def lean_str(s):
 
 
 def extract(ctx=None):
+    files = {}
+    errors = []
+    for part in (_extract_subtype, _extract_tables):
+        try:
+            files.update(part(ctx))
+        except Exception as e:  # noqa
+            errors.append(e)
+    if errors:
+        # what could be generated is written anyway (a stale table must not add a second, unrelated, broken
+        # obligation); the failure itself is reported by the framework
+        import common
+        for rel, content in files.items():
+            common.write_if_changed(common.LEAN / rel, content)
+        raise errors[0]
+    return files
+
+
+def _extract_subtype(ctx=None):
     src = SCHEMA.read_text()
     step, _ = py2lean.translate_step(
         src, "is_subtype", "isSubtypeStep", {"is_subtype": "recSub"}, cls="Schema", skip_self=True,
@@ -257,11 +634,20 @@ def extract(ctx=None):
                      "/-- one unfolding of `Schema.is_subtype(type_, super_type)`; `isinstance(·, GraphQLAbstractType)`,",
                      "    `isinstance(·, ObjectType)` and `self.is_possible_type` are parameters -/",
                      step, "end PyGql.Generated.Subtype", ""])
+    return {"PyGqlModel/Generated/Subtype.lean": sub}
+
+
+def _extract_tables(ctx=None):
     pattern, forb, start, cont, dollar = name_classes()
 
     def pred(ranges):
         return " || ".join(("c == %d" % a) if a == b else ("(%d ≤ c && c ≤ %d)" % (a, b)) for a, b in ranges) or "false"
     table = rule_table()
+    if ctx is not None:
+        ctx.extra["extraction"] = extraction_mode()
+        if extraction_mode() == "dynamic":
+            ctx.notes.append("message templates not recognised statically (%s): attribution learned from single-violation schemas" % _STATIC_WHY[0])
+            ctx.notes.extend(dynamic_rule_table()[2])
     tl = [py2lean.header("src/py_gql/schema/validation.py (VALID_NAME_RE, add_error call sites)"),
           "namespace PyGql.Generated.SchemaValidTables", "",
           "def validNamePattern : String := %s" % lean_str(pattern),
@@ -286,4 +672,4 @@ def extract(ctx=None):
            "", "/-- the proposed fix C13-S4-S6 is present in the working tree -/",
            "def fixS4S6 : Bool := %s" % ("true" if fix_applied() else "false"),
            "end PyGql.Generated.SchemaValidTables", ""]
-    return {"PyGqlModel/Generated/Subtype.lean": sub, "PyGqlModel/Generated/SchemaValidTables.lean": "\n".join(tl)}
+    return {"PyGqlModel/Generated/SchemaValidTables.lean": "\n".join(tl)}
